@@ -441,6 +441,19 @@ def check_map(run, name, grp, coords, shape, exprs, descr, plan):
                 i.fit_model(model_key="hertz_para", range_type="relative cp",
                             range_x=[1e-3, 2e-3])
                 continue
+            if what == "fit-fixed-zero":
+                # the contact point held fixed at 0 (after the tip offset
+                # correction) / the modulus held at the bound 0: fitted
+                # values that are exactly zero are values, not "unfitted"
+                p0_ = i.get_initial_fit_parameters(model_key="hertz_para")
+                p0_["contact_point"].set(value=0.0, vary=False)
+                i.fit_model(model_key="hertz_para", params_initial=p0_)
+                continue
+            if what == "fit-zero-modulus":
+                p0_ = i.get_initial_fit_parameters(model_key="hertz_para")
+                p0_["E"].set(value=0.0, vary=False)
+                i.fit_model(model_key="hertz_para", params_initial=p0_)
+                continue
             i.fit_model(model_key="power_layer_clifford_2009"
                         if what == "clifford" else "hertz_para")
             if "rate" in what:
@@ -610,7 +623,8 @@ def maps(run, exprs, descr):
         cfgs += [((2, 4), "column", set()), ((5, 5), "random", {3, 4, 20}),
                  ((4, 1), "row", set())]
     kinds = ["none", "fit", "fit+rate", "fit+rate+refit", "unsuccessful",
-             "fit+rate+edit", "fit+rate", "fit+rate+failed"]
+             "fit+rate+edit", "fit-fixed-zero", "fit+rate+failed",
+             "fit-zero-modulus", "fit+rate"]
     for ci, (shape, order, missing) in enumerate(cfgs):
         grp, coords = synthetic_group(shape, order, missing, seed=ci)
         plan = [kinds[(j + ci) % len(kinds)] for j in range(len(grp))]
